@@ -30,12 +30,22 @@ pub enum JoinType {
 pub type JoinKeys = SmallVec<[DataValue; 2]>;
 
 /// The form in which a join key value is hashed and compared. The `=` of a join condition
-/// converts between integer types, but key values are compared as they are: `INT = BIGINT`
-/// (or `bigint_column = 1`) never matched once it had become a pair of join keys.
+/// converts between numeric types, but key values are compared as they are: `INT = BIGINT`,
+/// `INT = DOUBLE` or `INT = DECIMAL` (or `bigint_column = 1`) never matched once it had become
+/// a pair of join keys. Numbers are therefore compared as decimals, like `=` does for a decimal
+/// operand (equal decimals of different scale are equal and hash alike); a float that has no
+/// exact decimal form (NaN, infinities, tiny or huge values) stays a float.
 pub fn join_key(value: DataValue) -> DataValue {
+    use rust_decimal::prelude::ToPrimitive;
+    use rust_decimal::Decimal;
     match value {
-        DataValue::Int16(v) => DataValue::Int64(v as i64),
-        DataValue::Int32(v) => DataValue::Int64(v as i64),
+        DataValue::Int16(v) => DataValue::Decimal(Decimal::from(v)),
+        DataValue::Int32(v) => DataValue::Decimal(Decimal::from(v)),
+        DataValue::Int64(v) => DataValue::Decimal(Decimal::from(v)),
+        DataValue::Float64(f) => match Decimal::from_f64_retain(f.0) {
+            Some(d) if d.to_f64() == Some(f.0) => DataValue::Decimal(d),
+            _ => DataValue::Float64(f),
+        },
         v => v,
     }
 }
